@@ -52,6 +52,7 @@ func dbInv(prevStart, prevEnd, n int, baseOffset int64) bool {
 //@ requires d != nil && dbInv(d.prevStart, d.prevEnd, len(d.buf), d.baseOffset)
 //@ ensures len(result) == d.prevEnd-d.prevStart
 //@ ensures vForall(0, len(result), func(i int) bool { return result[i] == d.buf[d.prevStart+i] })
+//@ ensures slice: sameSlice(result, d.buf[d.prevStart:d.prevEnd])
 
 //@ func (*decodeBuffer).unreadBuffer
 //@ property C05 C16 C20
